@@ -110,7 +110,7 @@ def run(ctx):
             ctx.inst("C04.R1", "recurses-into=RecordKey::%s" % v["name"], v["name"] in handled_k, "explicit arm for the record key kind: %s" % (v["name"] in handled_k), H.loc(hcf["body"]))
     # binder arms: `.insert` into a set that is a clone of bound, never `bound` itself
     k = 0
-    for n, e, g in scope.sites(hcf["body"], lambda n: H.kind(n) == "MethodCall" and n["name"] == "insert" and "HashSet" in n.get("recv_ty", ""), S.Env()):
+    for n, e, g in scope.sites(hcf["body"], lambda n: H.kind(n) == "MethodCall" and n["name"] in ("insert", "extend") and "HashSet" in n.get("recv_ty", ""), S.Env()):
         tgt = H.path_local(n["recv"])
         lab = innermost_ast_arm(g)
         ok = tgt != bound_p
@@ -202,20 +202,62 @@ def run(ctx):
     if lam is None:
         raise CheckerError("no Lambda arm in evaluate_ast")
     cfv_calls = [n for n in H.walk(lam["body"]) if H.kind(n) == "Call" and n.get("def") == CFV]
-    okc = len(cfv_calls) == 1 and H.path_local(cfv_calls[0]["args"][0]) == "body"
-    loops = [n for n in H.walk(lam["body"]) if H.kind(n) == "For"]
-    cap = False
-    for lp in loops:
-        src = H.path_local(lp["iter"])
-        if cfv_calls and src == H.path_local(cfv_calls[0]["args"][1]):
-            v = H.pat_binds(lp["pat"])[0]
-            gets = [x for x in H.walk(lp["body"]) if H.kind(x) == "MethodCall" and x.get("def") == ENV + "get" and H.path_local(x["args"][0]) == v]
-            ins = [x for x in H.walk(lp["body"]) if H.kind(x) == "MethodCall" and x["name"] == "insert" and H.contains_local(x["args"][0], v)]
-            cap = len(gets) == 1 and len(ins) == 1
-    ctx.inst("C04.R2", "capture#from-definition-environment", bool(okc and cap), "free names of the body are collected once and each is looked up in the defining environment and stored in the captured scope: %s/%s" % (okc, cap), H.loc(lam["body"]))
-    # params are excluded from capture: bound set initialised with arg names
-    bound_init = [n for n in H.walk(lam["body"]) if H.kind(n) == "For" and any(H.kind(x) == "MethodCall" and x["name"] == "insert" and "HashSet" in x.get("recv_ty", "") for x in H.walk(n["body"]))]
-    ctx.inst("C04.R2", "capture#parameters-excluded", len(bound_init) == 1 and H.path_local(bound_init[0]["iter"]) == "args", "bound set is seeded with the parameter names: %s" % (len(bound_init) == 1), H.loc(lam["body"]))
+    lam_binds = {}
+    for st in H.walk(lam["pat"]):
+        if H.kind(st) == "Struct" and (st["res"].get("def") or "").endswith("ast::Expr::Lambda"):
+            lam_binds = {f["name"]: (H.pat_binds(f["pat"]) or [None])[0] for f in st["fields"]}
+    body_v, args_v = lam_binds.get("body"), lam_binds.get("args")
+
+    def rooted_at(n, local):
+        """n is `local`, or a method chain / reference / clone whose innermost receiver is `local`"""
+        n = H.strip(n)
+        for _ in range(12):
+            if H.path_local(n) == local:
+                return True
+            if H.kind(n) == "MethodCall":
+                n = H.strip(n["recv"])
+                continue
+            return False
+        return False
+
+    if len(cfv_calls) != 1:
+        ctx.inst("C04.R2", "capture#from-definition-environment", False if not cfv_calls else None, "the Lambda arm calls collect_free_variables %d time(s)" % len(cfv_calls), H.loc(lam["body"]))
+        ctx.inst("C04.R2", "capture#parameters-excluded", None, "not decided without a single capture analysis call", H.loc(lam["body"]))
+    else:
+        cc = cfv_calls[0]
+        on_body = body_v is not None and H.path_local(cc["args"][0]) == body_v
+        V = H.path_local(cc["args"][1])
+        B = H.path_local(cc["args"][2])
+        # every collected name is looked up in the defining environment: an Environment::get whose key is the element of an iteration over V
+        gets = [x for x in H.walk(lam["body"]) if H.kind(x) == "MethodCall" and x.get("def") == ENV + "get"]
+        looked_up = None
+        for x in H.walk(lam["body"]):
+            if H.kind(x) == "For" and rooted_at(x["iter"], V):
+                v = (H.pat_binds(x["pat"]) or [None])[0]
+                looked_up = any(H.contains_local(g_["args"][0], v) for g_ in gets if any(y is g_ for y in H.walk(x["body"])))
+            if H.kind(x) == "MethodCall" and x["name"] in ("map", "filter_map", "filter", "for_each", "flat_map", "try_for_each") and rooted_at(x["recv"], V) and x["args"] and H.kind(H.strip(x["args"][0])) == "Closure":
+                clo = H.strip(x["args"][0])
+                ps = [bn for p_ in clo.get("params", []) for bn in H.pat_binds(p_)]
+                if any(any(H.contains_local(g_["args"][0], p_) for p_ in ps) for g_ in gets if any(y is g_ for y in H.walk(clo["body"]))):
+                    looked_up = True
+                elif looked_up is None:
+                    looked_up = False
+        verdict1 = False if not gets else (None if looked_up is None else bool(on_body and looked_up))
+        ctx.inst("C04.R2", "capture#from-definition-environment", verdict1,
+                 "free names of the body are collected once (on the body: %s) and each is looked up in the defining environment: %s" % (on_body, looked_up), H.loc(lam["body"]))
+        # parameters are excluded: the bound set handed to the analysis is seeded from the parameter list
+        seeded = None
+        for x in H.walk(lam["body"]):
+            if H.kind(x) == "For" and args_v is not None and rooted_at(x["iter"], args_v) and any(H.kind(y) == "MethodCall" and y["name"] == "insert" and H.path_local(y["recv"]) == B for y in H.walk(x["body"])):
+                seeded = True
+            if H.kind(x) == "MethodCall" and x["name"] == "extend" and H.path_local(x["recv"]) == B and args_v is not None and any(rooted_at(a_, args_v) for a_ in x["args"]):
+                seeded = True
+            if H.kind(x) == "Let" and H.kind(x.get("pat")) == "Bind" and x["pat"]["name"] == B and x.get("init") is not None:
+                if args_v is not None and rooted_at(x["init"], args_v):
+                    seeded = True
+                elif seeded is None and H.kind(H.strip(x["init"])) == "Call" and H.last(H.strip(x["init"]).get("def") or "") == "new":
+                    seeded = False  # starts empty: must be filled by one of the forms above
+        ctx.inst("C04.R2", "capture#parameters-excluded", seeded, "the bound set handed to the capture analysis is seeded with the parameter names: %s" % seeded, H.loc(lam["body"]))
 
     # ---------------- R3 arity classes and positional binding
     ctx.rule("C04.R3", "the three arity classes are tested identically in check_arity's built-in copy, its lambda copy and can_accept (== n; >= min; >= min && <= max); get_arity classifies by rest / all-required / optional; required, optional and rest parameters bind positionally", floor=10)
